@@ -129,7 +129,10 @@ def policy_is(h, policy, name):
 def encode_payload(h, registry_mod, message):
     """Payload bytes the real registry's encoder produces for `message` (plus the announced size)."""
     reg = h.get(registry_mod + ":INSTANCE")
-    enc = h.method(reg, "get_encoder", h.attr(message, "message_id"))
+    mid = h.prop(message, "message_id")
+    if not mid.ok:
+        return mid, None, None   # what was submitted is not a message object at all
+    enc = h.method(reg, "get_encoder", mid.value)
     if not enc.ok:
         return enc, None, None
     size = h.method(enc.value, "size", message)
